@@ -14,7 +14,8 @@ def queue_field_of_call(P, fn, call):
     """for a g_queue_* call: the node-state queue field its first argument was loaded from, or None"""
     if not call.args:
         return None
-    a = fn.resolve(rules.strip_casts(fn, call.args[0]))
+    # `GQueue *const q = state->message_queue; ... g_queue_pop_head(q)`: follow single-assignment locals
+    a = fn.resolve(rules.resolve_local(fn, rules.strip_casts(fn, call.args[0])))
     if a is not None and a.op == "load":
         return rules.field_path_of_ptr(P, fn, a["ptr"])
     return None
